@@ -69,6 +69,84 @@ def h_fault(k0: int, k1: int, k2: int, k3: int, k4: int, k5: int, k6: int, k7: i
     return finish(ok, Ws.faulted, (name, tuple(len(s) for s in d.srcs), len(out_s), Ws.uses if Ws.faulted else -1, endkind(end_s)))
 
 
+# ---- groupby: faults in the source or the key function under a pattern of operations ------------
+def _pre_gb(n, o0, o1, o2, o3, x, y):
+    ok = 0 <= n <= P("N", 3) and 1 <= x <= 2 * P("N", 3) + 2 and 0 <= y <= 2
+    for o in (o0, o1, o2, o3):
+        ok = ok and 0 <= o <= 1
+    return ok
+
+
+def h_fault_groupby(n: int, k0: int, k1: int, k2: int, o0: int, o1: int, o2: int, o3: int, x: int, y: int):
+    """
+    pre: _pre_gb(n, o0, o1, o2, o3, x, y)
+    post: _[0]
+    post: not _[1]
+    """
+    import itertools
+
+    import asyncstdlib as A
+
+    from .world import Item, take_sync
+    from .tools import KeyOf
+
+    reset_run()
+    keys = [k0, k1, k2]
+    items = []
+    for i in range(n):
+        items.append(Item(keys[i], "0.%d" % i))
+    fault = make_fault(y)
+    Wa, Ws = World("a", fault_at=x, fault=fault), World("s", fault_at=x, fault=fault)
+    D = Driver(Wa, sync_only=True)
+    kcache = {}
+
+    def keyf(it):
+        if id(it) not in kcache:
+            kcache[id(it)] = KeyOf(it)
+        return kcache[id(it)]
+
+    keymode = P("key", "def")
+    src_a = Wa.source(items, P("fl", "agen"))
+    src_s = Ws.source(items, "iter")
+    if keymode == "none":
+        ga, gs = A.groupby(src_a), itertools.groupby(src_s)
+    else:
+        ga = A.groupby(src_a, key=Wa.fn("key", keyf, keymode))
+        gs = itertools.groupby(src_s, Ws.fn("key", keyf))
+    grp_a = grp_s = None
+    ok = True
+    trace = []
+    for o in (o0, o1, o2, o3):
+        if o == 0 or grp_s is None:
+            trace.append("G")
+            ra, ea = D.take(ga, 1)
+            rs, es = take_sync(gs, 1)
+            if ra and rs:
+                grp_a, grp_s = ra[0][1], rs[0][1]
+                if ra[0][0] is not rs[0][0]:
+                    ok = fail("groupby:key-object-differs", trace) and ok
+        else:
+            trace.append("g")
+            ra, ea = D.take(grp_a, 1)
+            rs, es = take_sync(grp_s, 1)
+            if len(ra) != len(rs) or (ra and ra[0] is not rs[0]):
+                ok = fail("groupby:group-item-differs", (trace, ra, rs)) and ok
+        if len(ra) != len(rs):
+            ok = fail("groupby:items-before-failure-differ", (trace, ra, rs)) and ok
+        if es is fault or ea is fault:
+            if ea is not es:
+                ok = fail("groupby:fault-not-surfaced-unchanged", (trace, ea, es)) and ok
+            break
+        if (ea == "stop") != (es == "stop") or (ea is not None and ea != "stop") or (es is not None and es != "stop"):
+            ok = fail("groupby:ending-differs", (trace, ea, es)) and ok
+            break
+    if not logs_equal(Wa.log, Ws.log):
+        ok = fail("groupby:uses-differ", (trace, Wa.log, Ws.log)) and ok
+    for v in Wa.viol:
+        ok = fail("groupby:%s" % v) and ok
+    return finish(ok, Ws.faulted, ("groupby-fault", len(items), tuple(trace), Ws.uses if Ws.faulted else -1))
+
+
 def _grid():
     import random
 
@@ -86,7 +164,7 @@ def _grid():
     return out
 
 
-GRID = {"h_fault": _grid}
+GRID = {"h_fault": _grid, "h_fault_groupby": lambda: [(n, 1, 1, 2, a, b, c, 0, x, y) for n in range(4) for a in (0, 1) for b in (0, 1) for c in (0, 1) for x in range(1, 8) for y in range(3)]}
 
 TOOLS1 = ["filter", "filter_none", "filterfalse", "takewhile", "dropwhile", "pairwise", "cycle", "accumulate_f", "accumulate_f_init", "iter_sentinel", "enumerate", "batched", "starmap", "islice"]
 AGGS1 = ["all", "any", "min", "max", "sorted", "nlargest", "nsmallest", "reduce", "list", "tuple"]
@@ -124,6 +202,9 @@ def jobs(tier):
             for b1 in (False, True):
                 add("merge", 2, 2, 8, fl=fl, ffl=ffl, b0=b0, b1=b1)
         add("compress", 2, 2, 6, fl=fl, ffl=ffl)
+    for key in ("none", "def", "adef"):
+        for fl in ("agen", "acls"):
+            J.append({"module": "c06", "fn": "h_fault_groupby", "part": {"N": (2 if q else 3), "key": key, "fl": fl}, "timeout": T})
     if not q:
         for op in ("zip", "zip_longest", "map", "chain", "merge"):
             add(op, 3, 2, 12, fl="agen", ffl="adef")
@@ -132,7 +213,7 @@ def jobs(tier):
 
 
 BOUNDS = {
-    "quick": "(consuming aggregations additionally: the k-th use of one entity - source pulls, end-of-source check, callable - fails) one fault at symbolic position k=1..2N+2 over the merged use sequence (pulls, end-of-source checks, callable invocations); 7 exception kinds (Exception subclass, AttributeError, BaseException subclass, TypeError, ValueError, KeyError, RuntimeError) with N<=1 item per source, the first three kinds with N<=2; S<=2; flavours (async generator, def) / (class-based async iterator, async def) / (sync iterator, def)",
+    "quick": "(groupby: fault in source or key under every 4-operation pattern of advancing groupby / current group, N<=2, three exception kinds incl. AttributeError) (consuming aggregations additionally: the k-th use of one entity - source pulls, end-of-source check, callable - fails) one fault at symbolic position k=1..2N+2 over the merged use sequence (pulls, end-of-source checks, callable invocations); 7 exception kinds (Exception subclass, AttributeError, BaseException subclass, TypeError, ValueError, KeyError, RuntimeError) with N<=1 item per source, the first three kinds with N<=2; S<=2; flavours (async generator, def) / (class-based async iterator, async def) / (sync iterator, def)",
     "thorough": "N<=3, S<=3, additionally __getitem__ sequences, partial(async def) and callable objects",
 }
 OUTSIDE = ["faults of type StopIteration/StopAsyncIteration (generator semantics turn them into RuntimeError in both worlds differently)", "more than one fault", "lengths above the bound"]
